@@ -279,6 +279,10 @@ def settings(rule):
     for count in (1, 2):
         for back in (False, True):
             yield dict(nested=False, count=count, on='enter', loop=False, back=back)
+            yield dict(nested=False, count=count, on='leave', loop=False, back=back)
+    for nested in (False, True):
+        for on in ('enter', 'leave'):
+            yield dict(nested=nested, count=0, on=on, loop=False, back=True)
     if rule == 'call-unwrap':
         yield dict(nested=False, count=0, on='enter', loop=2, back=False)
         yield dict(nested=False, count=0, on='enter', loop=3, back=False)
